@@ -118,6 +118,8 @@ func Open(dir string, opts ...walOpt) (*WAL, error) {
 	// Load or create metaDB
 	persisted, err := w.metaDB.Load(w.dir)
 	if err != nil {
+		// Load may have opened the DB (and taken its file lock) before it failed.
+		w.metaDB.Close()
 		return nil, err
 	}
 
@@ -125,6 +127,19 @@ func Open(dir string, opts ...walOpt) (*WAL, error) {
 		segments:      &immutable.SortedMap[uint64, segmentState]{},
 		nextSegmentID: persisted.NextSegmentID,
 	}
+
+	// If we fail from here on the caller gets no *WAL it could Close, so release
+	// everything opened so far: the segment files and the meta DB, whose file
+	// lock would otherwise block every later Open in this process forever.
+	opened := false
+	var toClose []io.Closer
+	defer func() {
+		if opened {
+			return
+		}
+		w.closeSegments(toClose)
+		w.metaDB.Close()
+	}()
 
 	// Get the set of all persisted segments so we can prune it down to just the
 	// unused ones as we go.
@@ -168,6 +183,7 @@ func Open(dir string, opts ...walOpt) (*WAL, error) {
 			if err != nil {
 				return nil, err
 			}
+			toClose = append(toClose, sw)
 			// Set the tail and "reader" for this segment
 			ss := segmentState{
 				SegmentInfo: si,
@@ -189,6 +205,7 @@ func Open(dir string, opts ...walOpt) (*WAL, error) {
 		if err != nil {
 			return nil, err
 		}
+		toClose = append(toClose, sr)
 
 		// Store the open reader to get logs from
 		ss := segmentState{
@@ -225,6 +242,7 @@ func Open(dir string, opts ...walOpt) (*WAL, error) {
 		if err != nil {
 			return nil, err
 		}
+		toClose = append(toClose, w)
 		newState.tail = w
 		// Update the segment in memory so we have a reader for the new segment. We
 		// don't need to commit again as this isn't changing the persisted metadata
@@ -263,6 +281,7 @@ func Open(dir string, opts ...walOpt) (*WAL, error) {
 	// Start the rotation routine
 	go w.runRotate()
 
+	opened = true
 	return w, nil
 }
 
